@@ -37,7 +37,9 @@ func checkC04(c *Ctx, r *Report) {
 	})
 	ruleG8(c, r, scope, map[string]func(*Ctx, *Report, string) bool{"bits.FixedSliceReader.ReadPossiblyZeroTerminatedString:(FixedSliceReader).slice[(FixedSliceReader).pos]": invOnlyCallerURL,
 		"bits.FixedSliceReader.ReadPossiblyZeroTerminatedString:(FixedSliceReader).slice[(int):(FixedSliceReader).pos]": invOnlyCallerURL,
-		"bits.FixedSliceReader.RemainingBytes:(FixedSliceReader).slice[(FixedSliceReader).pos:]":                        invCursorWithinLen})
+		"bits.FixedSliceReader.RemainingBytes:(FixedSliceReader).slice[(FixedSliceReader).pos:]":                        invCursorWithinLen,
+		// the same construct with the capacity limited (fix 15dc49f): the low bound is still the cursor, the high bound the length
+		"bits.FixedSliceReader.RemainingBytes:(FixedSliceReader).slice[(FixedSliceReader).pos:len((FixedSliceReader).slice)]": invCursorWithinLen})
 	ruleG10(c, r, scope)
 	ruleG9(c, r, scope)
 	if n := ruleGOVF(c, r, func(f *ssa.Function) bool {
